@@ -684,6 +684,9 @@ def rule_no_state_left(ctx, prj, rid: str, roots: list, what: str):
             g0 = g.split(" (")[0]
             if (fi.qual, g0) in ALLOWED_STATE_WRITES:
                 continue
+            if fi.qual == "codelimit.common.Configuration:Configuration.load" and g0.startswith("Configuration."):
+                # the process configuration is the state load() exists to set (today it is called by the command-line callbacks)
+                continue
             kind, missing = memo_verdict(prj, fi, node)
             if kind == "memo" and not missing:
                 ctx.ok(rid, fi.site(node), f"{fi.local}: a memo in {g0} whose key contains every input of the stored value")
@@ -691,8 +694,8 @@ def rule_no_state_left(ctx, prj, rid: str, roots: list, what: str):
             n += 1
             extra = (f"; read as a memo, the stored value also depends on {sorted(missing)}, which the key does not capture") if kind == "memo" else ""
             ctx.viol(rid, f"{fi.local}/writes/{g0}", fi.site(node),
-                     f"`{unparse(node)[:70]}` modifies process-wide state {g} while rendering: what one report leaves there is shown with (or instead of) "
-                     f"the next report rendered in the same process" + extra)
+                     f"`{unparse(node)[:70]}` modifies process-wide state {g}: what one run leaves there is seen by (or shown with, or instead of) "
+                     f"the next run of the same process" + extra)
     if not n:
         ctx.ok(rid, prj.func(roots[0]).site(), f"{len(fns)} functions reachable from the renderers: no process-wide state written")
 
